@@ -1,6 +1,7 @@
 (* C16 - theorems only.  See DESIGN.md section 6, C16. *)
 From Coq Require Import Reals List Lra.
 From Sdfx Require Import Num.Ops Num.RInst Geo.Vec Geo.Box Geo.BoxR Sdf.Union2 Sdf.Union2R.
+From Sdfx Require Import Sdf.Shape Generated.SdfExpr Sdf.GenEq Sdf.GenEqR.
 Import ListNotations.
 Open Scope R_scope.
 
@@ -73,3 +74,44 @@ Proof.
   cbv zeta. split; [discriminate|]. unfold iv_ok, lower_ok, upper_ok.
   repeat split; repeat constructor; cbn; try lra; intros; lra.
 Qed.
+
+(* ---- The tie to the Go source.  Generated/SdfExpr.v is re-translated from the Go AST of the
+   current source tree on every run (harness/sdfgen); the definitions generated from
+   Box2/Box3.MinMaxDist2 (the vertex loop, side / face / edge cases) and from UnionSDF2.Evaluate /
+   EvaluateSlow (both operand loops, the closest-box bound) are equal to the model functions the
+   theorems above are about, for all arguments (Sdf/GenEq.v: by computation for the boxes, by
+   induction over the operand list for the union).  A semantic edit of one of these Go functions
+   breaks one of the obligations below. *)
+Theorem C16_go_box2_minmax_is_model : forall (b : Box2 ROps) (p : V2 ROps),
+  @sdf_Box2_MinMaxDist2 ROps b p = box2_minmax b p.
+Proof. exact (@Box2_MinMaxDist2_eq ROps). Qed.
+Print Assumptions C16_go_box2_minmax_is_model.
+
+Theorem C16_go_box3_minmax_is_model : forall (b : Box3 ROps) (p : V3 ROps),
+  @sdf_Box3_MinMaxDist2 ROps b p = box3_minmax b p.
+Proof. exact (@Box3_MinMaxDist2_eq ROps). Qed.
+Print Assumptions C16_go_box3_minmax_is_model.
+
+(* an operand list is a list of objects; the Go slice s.sdf is the list of their (Evaluate, BoundingBox) *)
+Theorem C16_go_union_evaluate_is_model : forall mk (l : list (Obj2 ROps)) (p : V2 ROps), (0 < length l)%nat ->
+  @sdf_UnionSDF2_Evaluate ROps (map pf2 l) (min_apply mk) (min_is_blend mk) p =
+  evaluate (min_is_blend mk) (min_apply mk) (map (fun x => (box2_minmax (bb2 x) p, ev2 x p)) l).
+Proof. exact (@Union2_eval_eq ROps). Qed.
+Print Assumptions C16_go_union_evaluate_is_model.
+
+Theorem C16_go_union_evaluateslow_is_model : forall minf (l : list (Obj2 ROps)) (p : V2 ROps),
+  @sdf_UnionSDF2_EvaluateSlow ROps (map pf2 l) minf p =
+  evaluate_slow minf (map (fun x => (box2_minmax (bb2 x) p, ev2 x p)) l).
+Proof. exact (@UnionSlow2_eq ROps). Qed.
+Print Assumptions C16_go_union_evaluateslow_is_model.
+
+(* Hence, about the translated Go code itself: with the plain minimum the pruned Evaluate equals
+   EvaluateSlow at every point, for every non-empty operand list whose operands have ordered boxes
+   and values that are at least the distance to their own box (iv_ok / lower_ok at that point). *)
+Theorem C16_go_union_prune_eq : forall (l : list (Obj2 ROps)) (p : V2 ROps),
+  l <> [] ->
+  Forall iv_ok (map (fun x => (box2_minmax (bb2 x) p, ev2 x p)) l) ->
+  Forall lower_ok (map (fun x => (box2_minmax (bb2 x) p, ev2 x p)) l) ->
+  @sdf_UnionSDF2_Evaluate ROps (map pf2 l) Rmin false p = @sdf_UnionSDF2_EvaluateSlow ROps (map pf2 l) Rmin p.
+Proof. exact go_union_prune_eq. Qed.
+Print Assumptions C16_go_union_prune_eq.
